@@ -676,10 +676,15 @@ class Walker:
         if self.inline_depth <= 0:
             return False
         f = call.func
-        if not isinstance(f, ast.Attribute):
-            return False
         recv_ir = None
-        if isinstance(f.value, ast.Name) and f.value.id == "self":
+        if isinstance(f, ast.Name):
+            # a module-level emitting helper of the same module: _update_bits(m, ...)
+            target = self.fi.module.functions.get(f.id) if f.id not in self.env else None
+            if target is None or any(isinstance(n, (ast.Yield, ast.YieldFrom)) for n in ast.walk(target.node)):
+                return False
+        elif not isinstance(f, ast.Attribute):
+            return False
+        elif isinstance(f.value, ast.Name) and f.value.id == "self":
             cls = self.fi.cls
             target = self.index.lookup_method(cls, f.attr) if cls else None
         else:
